@@ -32,8 +32,7 @@ HARNESS["band_dohello"]["replace"] = ["band_choose_hello_time"]
 H("c13_monotone", src="h_band.c", props=["C13"], unwind=4, port_model=True, no_native=False)
 
 # ---------------------------------------------------------------- C14 / C15 / C18 constructors and steps
-_US = {"switch_state_mapping.0": 130, "switch_state_session.0": 130, "switch_state_enumeration.0": 130,
-       "v_autom_closed.0": 130, "v_autom_step_rel.0": 130}
+_US = {"switch_state_mapping.0": 130, "switch_state_session.0": 130, "switch_state_enumeration.0": 130}
 H("ctor_mapping", src="h_autom.c", props=["C18", "C19"], enforce=["init_automata_mapping"], unwindset=_US,
   must_reach=["end", "ok", "null"], safety_props=["C18"], unwind=8)
 H("ctor_enum", src="h_autom.c", props=["C18", "C19"], enforce=["init_automata_enumeration"], unwindset=_US,
@@ -44,10 +43,26 @@ H("map_step", src="h_autom.c", props=["C14"], enforce_rec=["switch_state_mapping
 H("sess_step", src="h_autom.c", props=["C15"], enforce_rec=["switch_state_session"], unwindset=_US, unwind=8)
 H("enum_step", src="h_autom.c", props=["C12"], enforce=["switch_state_enumeration"], unwindset=_US, unwind=8)
 
+# ---------------------------------------------------------------- C16 session table
+_UT = {"session_table_find.0": 17, "session_table_add.0": 17, "session_table_remove.0": 17,
+       "session_table_update_complete_status.0": 17}
+for n, f, rep in [("tab_find", "session_table_find", []), ("tab_add", "session_table_add", []),
+                  ("tab_remove", "session_table_remove", ["session_table_update_complete_status"]),
+                  ("tab_update", "session_table_update_complete_status", []),
+                  ("tab_clear", "session_table_clear", [])]:
+    H(n, src="h_table.c", props=["C16"], enforce=[f], replace=rep, unwindset=_UT, unwind=8,
+      shards={"tab_add": 12, "tab_remove": 8, "tab_find": 4}.get(n, 1))
+H("tab_queries", src="h_table.c", props=["C16"], enforce=["session_table_is_empty", "session_table_all_complete"],
+  unwindset=_UT, unwind=8)
+H("tab_nullargs", src="h_table.c", props=["C16"], unwindset=_UT, unwind=8)
+H("tab_create", src="h_table.c", props=["C16", "C18", "C19"], enforce=["session_table_create"], unwindset=_UT, unwind=8,
+  must_reach=["end", "ok", "null"], safety_props=["C18"])
+
 PROPS = {
+    "C16": {"harnesses": ["tab_find", "tab_add", "tab_remove", "tab_update", "tab_queries", "tab_clear", "tab_create", "tab_nullargs"]},
     "C14": {"harnesses": ["map_step"]},
     "C15": {"harnesses": ["sess_step"]},
-    "C18": {"harnesses": ["ctor_mapping", "ctor_enum", "ctor_session"]},
+    "C18": {"harnesses": ["ctor_mapping", "ctor_enum", "ctor_session", "tab_create"]},
     "C13": {
         "harnesses": ["band_update", "band_choose", "band_dohello", "band_heard", "band_init", "c13_monotone"],
         "explanation": "band_* functions enforced against contracts whose postconditions are the closed forms of "
